@@ -45,7 +45,15 @@ MANIFEST = {
 
 
 def suites(tier):
-    return S.client_suites(tier, "chk_c13") + [S.suite_tcp_recv(tier), S.suite_int16(tier)]
+    out = S.client_suites(tier, "chk_c13")
+    for mk in (S.suite_tcp_recv, S.suite_int16):
+        try:
+            out.append(mk(tier))
+        except Exception as e:  # noqa: BLE001 — a crashing helper suite must not hide the client scripts
+            from lib.main import Case, Suite
+            out.append(Suite(mk.__name__ + "_crashed", S.IMPORTS, "chk_int16",
+                             [Case("([48%N], (@None Z))", {"crash": repr(e)[:500]}, kind="crash")]))
+    return out
 
 
 def classify(suite, desc):
